@@ -9,7 +9,7 @@ import (
 // S4 scoping: all nestings (depth <= 3) of scope-introducing constructs, each optionally
 // re-declaring or assigning one of two names, with reads after every scope exit.
 
-var scopeKinds = []string{"block", "if", "loop", "for", "catch", "closure", "fn", "match", "while", "try"}
+var scopeKinds = []string{"block", "if", "loop", "for", "catch", "closure", "fn", "match", "while", "try", "else", "else-if", "match-default", "if-with-unexecuted-else"}
 var scopeActs = []string{"none", "shadow-x", "assign-x", "shadow-y", "shadow-x-then-assign"}
 
 func scopeDepth(tier string) int {
@@ -83,6 +83,16 @@ func scopeGen(tier string, idx int) (progCase, bool) {
 			return []hs.Stmt{hs.ES(&hs.BlockExpr{B: hs.Blk(nil, body...)}), rd(tag + "x")}
 		case "if":
 			return []hs.Stmt{hs.ES(&hs.If{Cond: hs.Bin("<", hs.V("y"), hs.I(100000)), Then: hs.Blk(nil, body...)}), rd(tag + "x")}
+		case "else":
+			return []hs.Stmt{hs.ES(&hs.If{Cond: hs.Bin(">", hs.V("y"), hs.I(100000)), Then: hs.Blk(nil, hs.Println(hs.S("never"))), Else: hs.Blk(nil, body...)}), rd(tag + "x")}
+		case "else-if":
+			return []hs.Stmt{hs.ES(&hs.If{Cond: hs.Bin(">", hs.V("y"), hs.I(100000)), Then: hs.Blk(nil, hs.Println(hs.S("never"))),
+				ElIf: &hs.If{Cond: hs.Bin("<", hs.V("y"), hs.I(100000)), Then: hs.Blk(nil, body...), Else: hs.Blk(nil, hs.LetS("x", hs.I(-3)), hs.LetS("y", hs.I(-4)))}}), rd(tag + "x")}
+		case "if-with-unexecuted-else":
+			// the else block declares both names but never runs
+			return []hs.Stmt{hs.ES(&hs.If{Cond: hs.Bin("<", hs.V("y"), hs.I(100000)), Then: hs.Blk(nil, body...), Else: hs.Blk(nil, hs.LetS("x", hs.I(-1)), hs.LetS("y", hs.I(-2)), hs.Println(hs.S("never")))}), rd(tag + "x")}
+		case "match-default":
+			return []hs.Stmt{hs.ES(&hs.Match{X: hs.I(2), Arms: []hs.MatchArm{{Lits: []hs.Expr{hs.I(1)}, Body: &hs.BlockExpr{B: hs.Blk(nil, hs.LetS("x", hs.I(-5)))}}, {Body: &hs.BlockExpr{B: hs.Blk(nil, body...)}}}}), rd(tag + "x")}
 		case "loop":
 			return []hs.Stmt{&hs.Loop{Body: hs.Blk(nil, append(body, &hs.Break{})...)}, rd(tag + "x")}
 		case "while":
